@@ -30,7 +30,7 @@ RULE = (
 )
 MUST_HIT = ["source_already_partly_consumed", "fractional_durations", "hop_lt_block_same_samples", "empty_visible_with_overlap", "over_reads", "overlap_3_blocks", "max_read_inside_block",
             "visible_shorter_than_block", "rejected", "kind_wav_lazy", "kind_raw_lazy", "kind_stdin", "kind_stdin_pipe",
-            "kind_raw_fifo", "more_than_one_io_buffer"]
+            "kind_raw_fifo", "more_than_one_io_buffer", "block_longer_than_65536_samples"]
 ASSUMPTIONS = ["durations are passed as k/rate; where the exact product lies within 1e-9 of an integer either neighbour is accepted for block/hop size"]
 BOUNDS = {"quick": dict(n=1200, maxN=60), "thorough": dict(n=8000, maxN=400)}
 KINDS = ("bytes", "buffer", "raw_lazy", "wav_lazy", "stdin", "stdin_pipe", "raw_fifo")
@@ -62,6 +62,7 @@ class _FifoFeeder:
                     time.sleep(0.0005)  # no reader yet
             if fd is None:
                 return
+            os.set_blocking(fd, True)  # (non-blocking only to get past open(); writes must be complete)
             buf = array.array("i", [0])
             pos = i = 0
             try:
@@ -76,11 +77,9 @@ class _FifoFeeder:
                             break
                         time.sleep(0.0002)
                     n = sizes[i % len(sizes)]
-                    try:
-                        os.write(fd, data[pos: pos + n])
-                    except BlockingIOError:
-                        time.sleep(0.0005)
-                        continue
+                    piece = data[pos: pos + n]
+                    while piece:
+                        piece = piece[os.write(fd, piece):]
                     pos += n
                     i += 1
                     time.sleep(0.0003)
@@ -319,6 +318,8 @@ def check_case(case, rec):
             classes.add("source_already_partly_consumed")
         if len(data) > 8192:
             classes.add("more_than_one_io_buffer")
+        if B > 2**16:
+            classes.add("block_longer_than_65536_samples")
         rec.note(case, nt, classes, out=[list(s) for s in spans])
     finally:
         cleanup(paths)
@@ -339,6 +340,10 @@ def explicit_cases():
         dict(base, kind="stdin_pipe", N=40, H=None),
         dict(base, kind="stdin_pipe", N=37, mr=[30, 0]),
         dict(base, kind="raw_fifo", N=41, H=None),
+        dict(base, kind="wav_lazy", sr=48000, sw=2, ch=1, N=200017, B=70000, H=None),
+        dict(base, kind="stdin", sr=48000, sw=2, ch=2, N=150003, B=65537, H=None),
+        dict(base, kind="stdin_pipe", sr=16000, sw=4, ch=2, N=140001, B=66000, H=33000),
+        dict(base, kind="raw_lazy", sr=44100, sw=1, ch=1, N=200000, B=65536, H=None, mr=[140000, 0.5]),
         dict(base, kind="raw_lazy", rawname=".pcm", N=2500, B=127, H=None, sw=4, ch=3),
         dict(base, kind="raw_lazy", rawname="", N=1800, B=333, H=100, sw=2, ch=3),
         dict(base, kind="wav_lazy", N=2600, B=129, H=None, sw=2, ch=2, mr=[2000, 0.5]),
@@ -376,6 +381,18 @@ def strategy(draw, maxN):
     if cfg["kind"] == "buffer" and draw(st.booleans()):
         cfg["prepos"] = draw(st.integers(1, 9))
     cfg["rawname"] = draw(st.sampled_from([".raw", ".raw", ".pcm", "", ".dat"]))
+    if draw(rarely(40)):
+        # blocks longer than 2**16 samples (1.5 s at 48 kHz) / 2**16 bytes
+        cfg["B"] = draw(st.sampled_from([65535, 65536, 65537, 70000, 33000]))
+        cfg["N"] = draw(st.integers(cfg["B"] * 2, cfg["B"] * 3 + 17))
+        cfg["H"] = draw(st.sampled_from([None, None, cfg["B"] // 2, cfg["B"] - 1]))
+        cfg["mr"] = draw(st.one_of(st.none(), st.tuples(st.integers(cfg["B"], cfg["N"]), st.sampled_from([0, 0.5])).map(list)))
+        cfg["sr"] = draw(st.sampled_from([8000, 16000, 44100, 48000]))
+        cfg["ch"] = min(cfg["ch"], 2)
+        cfg.pop("fb", None)
+        cfg.pop("fh", None)
+        cfg.pop("prepos", None)
+        return cfg
     if cfg["kind"] in ("raw_lazy", "wav_lazy", "bytes") and draw(rarely(12)):
         # more data than one 4096 / 8192-byte io buffer, block sizes that do not divide it
         cfg["N"] = draw(st.integers(1500, 3000))
